@@ -76,7 +76,15 @@ func TemplateFromCert(ctx context.Context, cert *x509.Certificate, pubKey any) (
 
 	template.Subject.CommonName = subjectCn
 	template.Subject.SerialNumber = subjectSerial.String()
+	// The certificate serial number is the same as the subject's since certificates are not reissued
+	// (see sops.GoogleCertificateTemplate). The clone must not keep its predecessor's serial number,
+	// nor a root the signing-key lifetime.
+	template.SerialNumber = subjectSerial
+	validDays := styp.SignValidDays
+	if cert.IsCA {
+		validDays = styp.RootValidDays
+	}
 	template.NotBefore = timestamp
-	template.NotAfter = timestamp.Add(time.Duration(styp.SignValidDays) * 24 * time.Hour)
+	template.NotAfter = timestamp.Add(time.Duration(validDays) * 24 * time.Hour)
 	return &template, nil
 }
